@@ -216,6 +216,13 @@ def changer(chk, mini=False):
             b = re_ + random.Random(chk.seed).sample(b, 600 - len(re_))
         beh += b
         r.prints = []
+    if not chk.quick and not mini:
+        # the core state space without the history (TLC VIEW): every reachable target state and every kind of transition,
+        # for histories of any length - the state invariants and action properties hold unboundedly at design level
+        ru = tlc.run("Changer", "MC_Changer_unbounded.cfg", workers=8, timeout=2400, name="c13ub")
+        if not ru.ok:
+            raise tlc.TLCFailure("Changer.tla (unbounded, VIEW) violated %s\n%s" % (ru.violated, ru.counterexample[:1500]))
+        ev.tlc("Changer/MC_Changer_unbounded.cfg (core states under VIEW, histories of any length)", ru)
     for cfg in (() if mini else ("Sim_Changer_iscsi.cfg", "Sim_Changer_sgio.cfg")):
         rs = tlc.run("Changer", cfg, workers=1, timeout=1800, name="c13chgsim", simulate="num=%d" % (60 if chk.quick else 4000),
                      extra=["-depth", "40", "-seed", str(chk.seed + 17)])
